@@ -202,6 +202,15 @@ def do_op(k, name, a, b, text):
             return out_
         lst = prepared(("ca", a, b), mk3)
         res(k, simlib.charArrLen(lst, len(lst)))
+    elif name == "str_ptr_in":
+        res(k, simlib.strPtrIn(prepared(("t", text), lambda: text)))
+    elif name == "str_val_in":
+        res(k, simlib.strValIn(prepared(("t", text), lambda: text)))
+    elif name == "char_ret_len":
+        res(k, simlib.charRetLen(a))
+    elif name == "char_ret_null":
+        v = simlib.charRetNull(a)
+        res(k, "NONE" if v is None else v)
     elif name == "ref_item":
         h[a] = simlib.refItem()
         res(k)
